@@ -179,39 +179,62 @@ def mergedBody (mod : Int) (n : Nat) (k : Nat) (off : Nat) (g : List BodyId) : B
 def closureFuel (pairs : List (List BodyId)) (nTrans : Nat) : Nat :=
   (pairs.length + 1) * 2 ^ (min nTrans 14) + pairs.length * pairs.length + 8
 
-/-- `_simultaneous` on a design with `nus` user call sites (numbered `0 … nus-1`) -/
-def simultaneous (D : Design) (nus : Nat) : Except SReject MergeOut := do
+/-- manager.py:398-447: independence sets, pair generation (with the unsatisfiability check), transitive
+closure, maximal groups; canonical (lexicographic) order of the result -/
+def groupsOf (D : Design) (mm : MethodMap) : Except SReject (List (List BodyId)) :=
   let n := D.bodies.length
-  -- manager.py:379 `MethodMap(self.transactions, self.methods)` raises for cycles / double calls
-  match validateAll D with
-  | .error r => throw (.core r)
-  | .ok _ => pure ()
-  let mm := methodMap D
-  let cc ← conditionallyCalled D mm
   let sets := indepSets D mm
-  let allSim := allSimultaneous D mm
   let raw := rawPairs D mm
-  if raw.any (fun (a, b) => independent sets a b) then throw .simulUnsat
-  let pairs := dedupGroups (raw.map fun (a, b) => norm n [a, b])
-  let tr ← match closure n pairs sets (closureFuel pairs D.transactions.length) pairs [] with
-    | some tr => pure tr
-    | none => throw .fuel
-  let groups := sortGroups (maximalGroups tr)
+  if raw.any (fun ab => independent sets ab.1 ab.2) then .error .simulUnsat
+  else
+    let pairs := dedupGroups (raw.map fun ab => norm n [ab.1, ab.2])
+    match closure n pairs sets (closureFuel pairs D.transactions.length) pairs [] with
+    | some tr => .ok (sortGroups (maximalGroups tr))
+    | none => .error .fuel
+
+/-- manager.py:383-395 (orderings removed), :449-460 (joined transactions become methods, dropped ones
+disappear, one merged transaction per group) -/
+def oldBody (allSim dropped : List BodyId) (i : Nat) (b : Body) : Body :=
+  { b with isTrans := b.isTrans && !allSim.contains i, rels := b.rels.filter (keepRel b.simul), simul := [], indep := [],
+           calls := if dropped.contains i then [] else b.calls }
+
+def mergeOut (D : Design) (nus : Nat) (cc allSim : List BodyId) (groups : List (List BodyId)) : MergeOut :=
+  let n := D.bodies.length
   let joined := norm n groups.flatten
   let dropped := (List.range n).filter fun b => D.transactions.contains b && allSim.contains b && !joined.contains b
   let mod := maxModule D + 1
   let offs := offsets groups nus
-  let old := D.bodies.mapIdx fun i b =>
-    { b with isTrans := b.isTrans && !allSim.contains i, rels := b.rels.filter (keepRel b.simul), simul := [], indep := [],
-             calls := if dropped.contains i then [] else b.calls }
-  let merged := (groups.zip offs).mapIdx fun k (g, off) => mergedBody mod n k off g
+  let old := D.bodies.mapIdx (oldBody allSim dropped)
+  let merged := (groups.zip offs).mapIdx fun k go => mergedBody mod n k go.2 go.1
   let bodies := old ++ merged
   let D' : Design :=
     { bodies := bodies,
       transactions := (List.range bodies.length).filter fun b => (bodies.getD b default).isTrans,
       methods := (List.range bodies.length).filter fun b => !(bodies.getD b default).isTrans }
-  let enDeps := (groups.zip offs).flatMap fun (g, off) => g.mapIdx fun j t => (off + j, enDepsOf D cc t)
-  return { D := D', groups := groups, enDeps := enDeps, dropped := dropped, condCalled := cc }
+  let enDeps := (groups.zip offs).flatMap fun go => go.1.mapIdx fun j t => (go.2 + j, enDepsOf D cc t)
+  { D := D', groups := groups, enDeps := enDeps, dropped := dropped, condCalled := cc }
+
+/-- `_simultaneous` on a design with `nus` user call sites (numbered `0 … nus-1`) -/
+def simultaneous (D : Design) (nus : Nat) : Except SReject MergeOut :=
+  -- manager.py:379 `MethodMap(self.transactions, self.methods)` raises for cycles / double calls
+  match validateAll D with
+  | .error r => .error (.core r)
+  | .ok _ =>
+    let mm := methodMap D
+    match conditionallyCalled D mm with
+    | .error e => .error e
+    | .ok cc =>
+      match groupsOf D mm with
+      | .error e => .error e
+      | .ok groups => .ok (mergeOut D nus cc (allSimultaneous D mm) groups)
+
+/-- the call sites that are enabled whenever their caller runs: user calls placed directly in the
+caller's body (control path one edge longer than the body's own: no `enable_call`, no `m.If`) and
+merged calls whose `enable_call` is the empty conjunction -/
+def linkSites (D : Design) (enDeps : List (SiteId × List BodyId)) (nus : Nat) : List Nat :=
+  (D.allSites.filterMap fun sc =>
+    if sc.2.site < nus && sc.2.path.path.length == (D.defPath sc.1).path.length + 1 then some sc.2.site else none) ++
+  (enDeps.filterMap fun e => if e.2.isEmpty then some e.1 else none)
 
 /-! ## `condition()` (simultaneous.py:57-98) -/
 
